@@ -107,3 +107,9 @@ Proof. intros H. revert H. vm_compute. intros H; first [discriminate H | reflexi
 
 Example parsed_ex : parsed_file [41; 10] = ([], EErr 4).
 Proof. vm_compute. reflexivity. Qed.
+
+(* Zonefile::load hands the reader's octets to the buffer unchanged (io::copy
+   into the BufMut writer): every way of filling the buffer reads alike, which
+   the oracle compares on every input (classes constructor_dependent_...) *)
+Lemma load_copies : load_copies_octets = true.
+Proof. vm_compute. reflexivity. Qed.
